@@ -1,5 +1,7 @@
 """C02 - template instantiation is exact, capture-free substitution (Engine F)."""
+from .. import rules_alias as RA
 from .. import rules_inst as RI
+from .c13 import P1_EXEMPT
 
 ID = "C02"
 EXPLANATION = (
@@ -13,7 +15,9 @@ EXPLANATION = (
     "(str.replace/translate, re.sub) is applied anywhere in the instantiator. S4: every Type rebuilt in "
     "instantiate_type forwards the five qualifier flags from one source object to the parameters that store "
     "them. S5: rebuilt Arguments/Variables keep name and default. S6: the reserved name This is only "
-    "compared by equality / list membership and is replaced by the instantiated class's typename. Equality "
+    "compared by equality / list membership and is replaced by the instantiated class's typename. S7: the "
+    "instantiator modifies only objects it created or copied itself (the declaration is the input of every "
+    "later instantiation, so an in-place rewrite would make the n-th instantiation depend on the first). Equality "
     "of the resulting C++ spellings for all inputs is a value-level fact and is not decided.")
 ASSUMPTIONS = [
     "type-carrying fields are those the parser classes annotate with Type/TemplatedType or a class that "
@@ -33,3 +37,6 @@ def run(ctx, rep):
     rep.run(RI.rule_qualifier_forwarding, ctx, rep, "S4", min_sites=3)
     rep.run(RI.rule_name_default_forwarding, ctx, rep, "S5")
     rep.run(RI.rule_this, ctx, rep, "S6")
+    # the declaration is the input of every later instantiation: rewriting it in place makes the second
+    # instantiation start from the first one's result
+    rep.run(RA.rule_mutate_only_fresh, ctx, rep, "S7", "gtwrap/template_instantiator", P1_EXEMPT, min_sites=20)
